@@ -354,3 +354,27 @@ package tsm1
 //@   props C02
 //@   nosafety
 //@   loop 1 invariant older_source_first: (snapshotEntries != nil && e != nil ==> len(entries) == 2 && entries[0] == snapshotEntries && entries[1] == e) && (snapshotEntries != nil && e == nil ==> len(entries) == 1 && entries[0] == snapshotEntries) && (snapshotEntries == nil && e != nil ==> len(entries) == 1 && entries[0] == e)
+
+// ---- C13: the timestamp encoder only scales deltas by a divisor that divides every one of them ----
+// div ranges over the powers of ten 1..1e12 (it starts at 1e12 and is only ever divided by 10), so divisibility is
+// spelled out per value and the solver stays in linear arithmetic. Scaling deltas[i] /= div is exact - and the
+// decoder's multiplication restores the delta - only if div divides deltas[i]: that is the invariant of the
+// divisor search and the entry condition of the scaling loop (and of the RLE branch for its single delta).
+//@ pure pow10(d) = d == 1 || d == 10 || d == 100 || d == 1000 || d == 10000 || d == 100000 || d == 1000000 || d == 10000000 || d == 100000000 || d == 1000000000 || d == 10000000000 || d == 100000000000 || d == 1000000000000
+//@ pure divides(d, x) = d == 1 || (d == 10 && x % 10 == 0) || (d == 100 && x % 100 == 0) || (d == 1000 && x % 1000 == 0) || (d == 10000 && x % 10000 == 0) || (d == 100000 && x % 100000 == 0) || (d == 1000000 && x % 1000000 == 0) || (d == 10000000 && x % 10000000 == 0) || (d == 100000000 && x % 100000000 == 0) || (d == 1000000000 && x % 1000000000 == 0) || (d == 10000000000 && x % 10000000000 == 0) || (d == 100000000000 && x % 100000000000 == 0) || (d == 1000000000000 && x % 1000000000000 == 0)
+
+// the unsafe cast: same memory viewed as []uint64 (the caller gives src up; only the view is used afterwards)
+//@ func reintepretInt64ToUint64Slice
+//@   assumed
+//@   modifies nothing
+//@   ensures same_len: len(result) == len(src)
+
+//@ func TimeArrayEncodeAll
+//@   props C13
+//@   nosafety
+//@   exact_divmod
+//@   loop 3 invariant rle_divisor: pow10(div)
+//@   call binary.PutUvarint#1 requires rle_scaling_is_exact: divides(div, deltas[1])
+//@   loop 5 invariant divisor_divides_all_seen: pow10(div) && 1 <= i && all(k, 1, i, divides(div, deltas[k]))
+//@   loop 6 invariant divisor_divides_all_seen: pow10(div) && all(k, 1, i, divides(div, deltas[k]))
+//@   loop 7 invariant scaling_is_exact: pow10(div) && 1 <= i && all(k, i, len(deltas), divides(div, deltas[k]))
